@@ -76,44 +76,55 @@ func (fr *Frame) execDefers(st *State, rec *Val) {
 	for i := len(fr.defers) - 1; i >= 0; i-- {
 		d := fr.defers[i]
 		if d.Block().Index != 0 && fr.deferConds[i] != fr.entryPc {
-			// conditional defer: run under its registration condition only
-			u.note("conditionally registered defer executed on all paths")
-		}
-		c := d.Common()
-		var args []*Val
-		for _, a := range c.Args {
-			args = append(args, fr.val(a))
-		}
-		if c.IsInvoke() {
-			fr.invoke(c, fr.val(c.Value), args, st, d.Pos(), c.Signature().Results())
+			// a defer statement that is not reached on every path: the deferred call runs only on the paths
+			// that registered it
+			reg, unreg := st.clone(), st.clone()
+			reg.pc = and(st.pc, fr.deferConds[i])
+			unreg.pc = and(st.pc, not(fr.deferConds[i]))
+			fr.execOneDefer(d, reg, rec)
+			*st = *u.merge([]*State{reg, unreg}, fr.fn.Name()+":defer")
 			continue
 		}
-		if _, ok := c.Value.(*ssa.Builtin); ok {
-			fr.call(d, c, st)
-			continue
-		}
-		callee := c.StaticCallee()
-		if callee == nil {
-			u.unsupportedf("defer of dynamic function")
-		}
-		var binds []*Val
-		if mc, ok := c.Value.(*ssa.MakeClosure); ok {
-			for _, b := range mc.Bindings {
-				binds = append(binds, fr.val(b))
-			}
-		}
-		if len(callee.Blocks) > 0 && callsRecover(callee) {
-			sub := &Frame{u: u, fn: callee, vals: map[ssa.Value]*Val{}, depth: fr.depth + 1, ctx: fr.ctx, binds: binds, parent: fr,
-				stack: append(append([]*ssa.Function{}, fr.stack...), fr.fn), recoverV: rec}
-			for i, p := range callee.Params {
-				sub.vals[p] = args[i]
-			}
-			exit, _ := sub.run(st)
-			*st = *exit
-			continue
-		}
-		fr.staticCall(callee, binds, args, st, d.Pos(), c.Signature().Results())
+		fr.execOneDefer(d, st, rec)
 	}
+}
+
+func (fr *Frame) execOneDefer(d *ssa.Defer, st *State, rec *Val) {
+	u := fr.u
+	c := d.Common()
+	var args []*Val
+	for _, a := range c.Args {
+		args = append(args, fr.val(a))
+	}
+	if c.IsInvoke() {
+		fr.invoke(c, fr.val(c.Value), args, st, d.Pos(), c.Signature().Results())
+		return
+	}
+	if _, ok := c.Value.(*ssa.Builtin); ok {
+		fr.call(d, c, st)
+		return
+	}
+	callee := c.StaticCallee()
+	if callee == nil {
+		u.unsupportedf("defer of dynamic function")
+	}
+	var binds []*Val
+	if mc, ok := c.Value.(*ssa.MakeClosure); ok {
+		for _, b := range mc.Bindings {
+			binds = append(binds, fr.val(b))
+		}
+	}
+	if len(callee.Blocks) > 0 && callsRecover(callee) {
+		sub := &Frame{u: u, fn: callee, vals: map[ssa.Value]*Val{}, depth: fr.depth + 1, ctx: fr.ctx, binds: binds, parent: fr,
+			stack: append(append([]*ssa.Function{}, fr.stack...), fr.fn), recoverV: rec}
+		for i, p := range callee.Params {
+			sub.vals[p] = args[i]
+		}
+		exit, _ := sub.run(st)
+		*st = *exit
+		return
+	}
+	fr.staticCall(callee, binds, args, st, d.Pos(), c.Signature().Results())
 }
 
 // finishPanics: after the body has been executed, continue the recovered paths
@@ -234,8 +245,19 @@ func (fr *Frame) goStmt(x *ssa.Go, st *State) {
 				}
 			}
 		}
+		// the new goroutine holds no lock, whatever the spawning one holds
+		sst := st.clone()
+		for k := range sst.ghost {
+			if strings.HasPrefix(k, "held:") {
+				sst.ghost[k] = "false"
+			}
+		}
+		for _, m := range u.eng.contracts.monitors {
+			sst.ghost[heldKey(m, "")] = "false"
+			u.ghostSort[heldKey(m, "")] = "Bool"
+		}
 		for i, r := range ct.Requires {
-			g := fr.evalBool(r, env, st, st)
+			g := fr.evalBool(r, env, sst, sst)
 			u.oblige(fr, st, "pre", fmt.Sprintf("go.%s.%d", shortKey(fnKey(callee)), i+1), g, x.Pos(), "precondition of spawned "+fnKey(callee)+": "+r.src)
 		}
 	}()
@@ -404,59 +426,36 @@ func (fr *Frame) syncOp(name string, st *State, args []*Val, pos token.Pos) *Val
 	}
 	if len(args) > 0 {
 		if m, fname := u.monitorFor(args[0]); m != nil && fname == m.Lock {
-			hk := heldKey(m, args[0].Ref)
-			u.ghostSort[hk] = "Bool"
+			base := *args[0]
+			base.Sels = base.Sels[:len(base.Sels)-1]
+			cont := args[0].Sels[len(args[0].Sels)-1].cont
 			switch {
 			case strings.HasSuffix(name, ".Lock"):
-				// protected fields: unknown contents on acquisition
-				base := *args[0]
-				base.Sels = base.Sels[:len(base.Sels)-1]
-				cont := args[0].Sels[len(args[0].Sels)-1].cont
-				stt := cont.Underlying().(*types.Struct)
-				// The function's contract speaks about the protected state as of the first acquisition; after a
-				// release, other goroutines may have changed it, so a re-acquisition havocs it.
-				rk := "released:" + hk
-				reacquired := st.ghost[rk] == "true"
-				for i := 0; i < stt.NumFields() && reacquired; i++ {
-					for _, pf := range m.Protects {
-						if stt.Field(i).Name() != pf {
-							continue
-						}
-						fa := base
-						fa.Sels = append(append([]sel{}, base.Sels...), sel{field: i, cont: cont})
-						if mt, ok := stt.Field(i).Type().Underlying().(*types.Map); ok {
-							// the map object stays, its contents are whatever other goroutines left
-							mref := u.loadAddr(st, &fa)
-							kd, kv, kl := u.regM(mt)
-							ks, vs := u.w.sortOf(mt.Key()), u.w.sortOf(mt.Elem())
-							nd := u.w.newConst("lockedDom", fmt.Sprintf("(Array %s Bool)", ks))
-							nv := u.w.newConst("lockedVal", fmt.Sprintf("(Array %s %s)", ks, vs))
-							nl := u.w.newConst("lockedLen", "Int")
-							u.fact(fmt.Sprintf("(>= %s 0)", nl))
-							st.heap[kd] = u.nameHeap(kd, fmt.Sprintf("(store %s %s %s)", u.heapOf(st, kd), mref, nd))
-							st.heap[kv] = u.nameHeap(kv, fmt.Sprintf("(store %s %s %s)", u.heapOf(st, kv), mref, nv))
-							st.heap[kl] = u.nameHeap(kl, fmt.Sprintf("(store %s %s %s)", u.heapOf(st, kl), mref, nl))
-							// ghost: contents at the first acquisition are what old() of the sequential contract means
-							if _, seen := st.ghost["locked-once:"+hk]; seen {
-								u.note("monitor re-acquired: protected state havocked again")
-							}
-							u.ghostSort["locked-once:"+hk] = "Bool"
-							st.ghost["locked-once:"+hk] = "true"
-						} else {
-							nvv := u.w.newConst("locked:"+pf, u.w.sortOf(stt.Field(i).Type()))
-							for _, f := range u.wfFacts(st, nvv, stt.Field(i).Type(), 0) {
-								u.fact(f)
-							}
-							u.storeAddr(st, &fa, nvv)
-						}
-					}
-				}
-				st.ghost[hk] = "true"
+				fr.monitorAcquire(m, &base, cont, st, false)
 			case strings.HasSuffix(name, ".Unlock"):
-				u.oblige(fr, st, "guarded", "unlock", u.ghostOf(st, hk), pos, "unlock of a mutex that is not held")
-				st.ghost[hk] = "false"
-				u.ghostSort["released:"+hk] = "Bool"
-				st.ghost["released:"+hk] = "true"
+				fr.monitorRelease(m, &base, cont, st, pos, "unlock")
+			}
+		} else if m, base, cont := u.condMonitor(args[0]); m != nil {
+			// a condition variable of a declared monitor
+			_, ub := "", ""
+			_, _ = ub, base
+			u.ghostSort["signalled"] = "(Array Ref Bool)"
+			switch {
+			case strings.HasSuffix(name, ".Signal"), strings.HasSuffix(name, ".Broadcast"):
+				cur := u.ghostOf(st, "signalled")
+				n := u.w.newConst("signalled", "(Array Ref Bool)")
+				u.fact(eq(n, fmt.Sprintf("(store %s %s true)", cur, args[0].Ref)))
+				st.ghost["signalled"] = n
+			case strings.HasSuffix(name, ".Wait"):
+				// Wait releases the lock (the monitor invariant must hold), sleeps until signalled, re-acquires
+				if base != nil {
+					fr.monitorRelease(m, base, cont, st, pos, "wait")
+					fr.monitorAcquire(m, base, cont, st, true)
+				} else {
+					u.note("Cond.Wait on a monitor that was not locked in this function: state not havocked")
+				}
+				u.fact(implies(st.pc, fmt.Sprintf("(select %s %s)", u.ghostOf(st, "signalled"), args[0].Ref)))
+				u.assume["sync.Cond.Wait returns only after Signal or Broadcast on that condition variable (Go semantics: no spurious wake-ups)"] = true
 			}
 		}
 	}
@@ -464,6 +463,123 @@ func (fr *Frame) syncOp(name string, st *State, args []*Val, pos token.Pos) *Val
 		h(fr, name, st, args, pos)
 	}
 	return &Val{K: vNone}
+}
+
+// condMonitor: the address is a condition variable field that a monitor declares; returns the monitor and the
+// struct (base address, type) whose lock was last acquired in this function
+func (u *Unit) condMonitor(a *Val) (*Monitor, *Val, types.Type) {
+	if a == nil || a.K != vAddr || len(a.Sels) == 0 {
+		return nil, nil, nil
+	}
+	last := a.Sels[len(a.Sels)-1]
+	n, ok := last.cont.(*types.Named)
+	if !ok || n.Obj().Pkg() == nil || last.field < 0 {
+		return nil, nil, nil
+	}
+	key := n.Obj().Pkg().Name() + "." + n.Obj().Name() + "." + fieldName(last.cont, last.field)
+	for _, m := range u.eng.contracts.monitors {
+		for _, c := range m.Conds {
+			if c == key {
+				if lb := u.lastMonBase[m]; lb != nil {
+					return m, lb.base, lb.cont
+				}
+				return m, nil, nil
+			}
+		}
+	}
+	return nil, nil, nil
+}
+
+type monBase struct {
+	base *Val
+	cont types.Type
+}
+
+func (fr *Frame) monitorInvs(m *Monitor, base *Val, cont types.Type, st *State) []string {
+	u := fr.u
+	if len(m.Invs) == 0 || len(base.Sels) != 0 {
+		return nil
+	}
+	self := term(base.Ref, types.NewPointer(cont))
+	env := &Env{vars: map[string]*Val{m.InvVar: self}, pkg: u.eng.pkgByName(m.Pkg)}
+	var out []string
+	for _, inv := range m.Invs {
+		out = append(out, fr.evalBool(inv, env, st, st))
+	}
+	return out
+}
+
+// monitorAcquire: the lock is taken. After a release in this function, other goroutines may have changed the
+// protected fields and everything reachable only through them; the monitor invariant holds.
+func (fr *Frame) monitorAcquire(m *Monitor, base *Val, cont types.Type, st *State, forceHavoc bool) {
+	u := fr.u
+	hk := heldKey(m, base.Ref)
+	u.ghostSort[hk] = "Bool"
+	stt := cont.Underlying().(*types.Struct)
+	rk := "released:" + hk
+	reacquired := st.ghost[rk] == "true" || forceHavoc
+	for i := 0; i < stt.NumFields() && reacquired; i++ {
+		for _, pf := range m.Protects {
+			if stt.Field(i).Name() != pf {
+				continue
+			}
+			fa := *base
+			fa.Sels = append(append([]sel{}, base.Sels...), sel{field: i, cont: cont})
+			if mt, ok := stt.Field(i).Type().Underlying().(*types.Map); ok {
+				// the map object stays, its contents are whatever other goroutines left
+				mref := u.loadAddr(st, &fa)
+				kd, kv, kl := u.regM(mt)
+				ks, vs := u.w.sortOf(mt.Key()), u.w.sortOf(mt.Elem())
+				nd := u.w.newConst("lockedDom", fmt.Sprintf("(Array %s Bool)", ks))
+				nv := u.w.newConst("lockedVal", fmt.Sprintf("(Array %s %s)", ks, vs))
+				nl := u.w.newConst("lockedLen", "Int")
+				u.fact(fmt.Sprintf("(>= %s 0)", nl))
+				st.heap[kd] = u.nameHeap(kd, fmt.Sprintf("(store %s %s %s)", u.heapOf(st, kd), mref, nd))
+				st.heap[kv] = u.nameHeap(kv, fmt.Sprintf("(store %s %s %s)", u.heapOf(st, kv), mref, nv))
+				st.heap[kl] = u.nameHeap(kl, fmt.Sprintf("(store %s %s %s)", u.heapOf(st, kl), mref, nl))
+				if _, seen := st.ghost["locked-once:"+hk]; seen {
+					u.note("monitor re-acquired: protected state havocked again")
+				}
+				u.ghostSort["locked-once:"+hk] = "Bool"
+				st.ghost["locked-once:"+hk] = "true"
+			} else {
+				nvv := u.w.newConst("locked:"+pf, u.w.sortOf(stt.Field(i).Type()))
+				for _, f := range u.wfFacts(st, nvv, stt.Field(i).Type(), 0) {
+					u.fact(f)
+				}
+				u.storeAddr(st, &fa, nvv)
+			}
+		}
+	}
+	if reacquired {
+		for _, tn := range m.Types {
+			if t, _ := u.eng.resolveType(u.eng.pkgByName(m.Pkg), strings.TrimPrefix(tn, m.Pkg+".")); t != nil {
+				u.havocHeap(st, u.regT(t), true, nil)
+			}
+		}
+	}
+	st.ghost[hk] = "true"
+	if u.lastMonBase == nil {
+		u.lastMonBase = map[*Monitor]*monBase{}
+	}
+	b := *base
+	u.lastMonBase[m] = &monBase{base: &b, cont: cont}
+	for _, f := range fr.monitorInvs(m, base, cont, st) {
+		u.fact(implies(st.pc, f))
+	}
+}
+
+func (fr *Frame) monitorRelease(m *Monitor, base *Val, cont types.Type, st *State, pos token.Pos, what string) {
+	u := fr.u
+	hk := heldKey(m, base.Ref)
+	u.ghostSort[hk] = "Bool"
+	u.oblige(fr, st, "guarded", what, u.ghostOf(st, hk), pos, what+" of a mutex that is not held")
+	for i, f := range fr.monitorInvs(m, base, cont, st) {
+		u.oblige(fr, st, "lockinv", fmt.Sprintf("%s.%d", what, i+1), f, pos, "monitor invariant holds when the lock is released: "+m.Invs[i].src)
+	}
+	st.ghost[hk] = "false"
+	u.ghostSort["released:"+hk] = "Bool"
+	st.ghost["released:"+hk] = "true"
 }
 
 // guardedAccess: a protected field is touched: the monitor must be held
@@ -477,10 +593,8 @@ func (fr *Frame) guardedAccess(a *Val, st *State, pos token.Pos) {
 		if pf == fname {
 			hk := heldKey(m, a.Ref)
 			u.ghostSort[hk] = "Bool"
-			if _, ok := st.ghost[hk]; !ok {
-				st.ghost[hk] = "false"
-			}
-			u.oblige(fr, st, "guarded", fname, st.ghost[hk], pos, "access to "+fname+" without holding "+m.Lock)
+			// memory allocated during this call is not shared yet
+			u.oblige(fr, st, "guarded", fname, or(u.ghostOf(st, hk), fmt.Sprintf("(>= (birth %s) %s)", a.Ref, u.entryNow)), pos, "access to "+fname+" without holding "+m.Lock)
 			// remember which map values come from insert-only fields
 			for _, io := range m.InsertOnly {
 				if io == fname {
